@@ -280,6 +280,9 @@ class Repo:
         return out  # type: ignore[return-value]
 
     def mro(self, c: Cls) -> list[Cls]:
+        cache = self.__dict__.setdefault("_mro_cache", {})
+        if c.qual in cache:
+            return cache[c.qual]  # type: ignore[no-any-return]
         seen: list[Cls] = []
 
         def walk(k: Cls) -> None:
@@ -290,13 +293,21 @@ class Repo:
                 walk(b)
 
         walk(c)
+        cache[c.qual] = seen
         return seen
 
     def find_method(self, c: Cls, name: str) -> Func | None:
+        cache = self.__dict__.setdefault("_method_cache", {})
+        key = (c.qual, name)
+        if key in cache:
+            return cache[key]  # type: ignore[no-any-return]
+        res = None
         for k in self.mro(c):
             if name in k.methods:
-                return Func(k.mod, k, k.methods[name])
-        return None
+                res = Func(k.mod, k, k.methods[name])
+                break
+        cache[key] = res
+        return res
 
     def all_classes(self) -> Iterator[Cls]:
         for m in self.modules.values():
